@@ -112,10 +112,11 @@ type gen struct {
 	recRules []string // dedicated recovery rules
 	noCode   bool     // inside a recovery expression: no code blocks, no labels
 	noThrow  bool
+	handled  []string // failure labels handled by the lexically enclosing recovery operators
 }
 
-func (c *gen) intn(lo, hi int, l string) int { return rapid.IntRange(lo, hi).Draw(c.t, l) }
-func (c *gen) chance(pct int, l string) bool { return rapid.IntRange(0, 99).Draw(c.t, l) < pct }
+func (c *gen) intn(lo, hi int, l string) int { return lo + U(c.t, hi-lo+1, l) }
+func (c *gen) chance(pct int, l string) bool { return U(c.t, 100, l) < pct }
 
 func (c *gen) id() int {
 	c.nextID++
@@ -123,7 +124,7 @@ func (c *gen) id() int {
 }
 
 func (c *gen) rune_() rune {
-	return rapid.SampledFrom(c.cfg.Alphabet).Draw(c.t, "rune")
+	return Pick(c.t, c.cfg.Alphabet, "rune")
 }
 
 func (c *gen) lit() *Expr {
@@ -161,10 +162,10 @@ func (c *gen) class() *Expr {
 			if c.cfg.ICUnsafe {
 				pairs = append(pairs, [2]rune{'0', 'Z'}, [2]rune{'Z', 'a'}, [2]rune{'A', 'z'}, [2]rune{'_', 'b'}, [2]rune{'c', 'a'})
 			}
-			p := rapid.SampledFrom(pairs).Draw(c.t, "range")
+			p := Pick(c.t, pairs, "range")
 			e.Ranges = append(e.Ranges, p[0], p[1])
 		default:
-			e.UClasses = append(e.UClasses, rapid.SampledFrom(UClassPool).Draw(c.t, "ucl"))
+			e.UClasses = append(e.UClasses, Pick(c.t, UClassPool, "ucl"))
 		}
 	}
 	return e
@@ -195,7 +196,7 @@ func (c *gen) label() string {
 	c.labelN++
 	if c.cfg.NameStyle == 1 {
 		pool := []string{"x", "y", "z", "v", "val", "p", "cur", "stack", "ctx", "e", "err", "ok", "text", "pos", "_a", "é", "l"}
-		return fmt.Sprintf("%s%d", rapid.SampledFrom(pool).Draw(c.t, "lname"), c.labelN)
+		return fmt.Sprintf("%s%d", Pick(c.t, pool, "lname"), c.labelN)
 	}
 	return fmt.Sprintf("l%d", c.labelN)
 }
@@ -217,7 +218,7 @@ func (c *gen) ref(guarded bool) (*Expr, bool, bool) {
 		tail := c.names[c.ruleIdx+1:]
 		n = tail[len(tail)-1-c.intn(0, min(1, len(tail)-1), "sharedidx")]
 	} else {
-		n = rapid.SampledFrom(cands).Draw(c.t, "refname")
+		n = Pick(c.t, cands, "refname")
 	}
 	nullable, known := c.nullable[n]
 	if !known {
@@ -237,6 +238,9 @@ func (c *gen) expr(depth int, guarded bool) (*Expr, bool) {
 			}
 		}
 		return c.terminal()
+	}
+	if c.cfg.Throw && !c.noThrow && len(c.handled) > 0 && c.chance(10, "throwexpr") {
+		return &Expr{K: KThrow, Name: c.flabel()}, true
 	}
 	k := c.intn(0, 99, "kind")
 	switch {
@@ -284,6 +288,9 @@ func (c *gen) expr(depth int, guarded bool) (*Expr, bool) {
 	case c.cfg.Throw && !c.noThrow:
 		return c.recover(depth, guarded)
 	}
+	if c.cfg.Throw && !c.noThrow && c.chance(50, "morerecover") {
+		return c.recover(depth, guarded)
+	}
 	return c.seq(depth, guarded)
 }
 
@@ -316,7 +323,7 @@ func (c *gen) seq(depth int, guarded bool) (*Expr, bool) {
 		case c.cfg.StateBlocks && !c.noCode && c.chance(18, "stateblock"):
 			s = c.stateBlock()
 			sn = true
-		case c.cfg.Throw && !c.noThrow && c.chance(8, "throw"):
+		case c.cfg.Throw && !c.noThrow && c.chance(c.throwChance(), "throw"):
 			s = &Expr{K: KThrow, Name: c.flabel()}
 			sn = true
 		default:
@@ -337,14 +344,24 @@ func (c *gen) seq(depth int, guarded bool) (*Expr, bool) {
 }
 
 func (c *gen) flabel() string {
-	return rapid.SampledFrom([]string{"F1", "F2", "F3"}).Draw(c.t, "flabel")
+	if len(c.handled) > 0 && c.chance(85, "handledlabel") {
+		return Pick(c.t, c.handled, "flabelh")
+	}
+	return Pick(c.t, []string{"F1", "F2", "F3"}, "flabel")
+}
+
+func (c *gen) throwChance() int {
+	if len(c.handled) > 0 {
+		return 28
+	}
+	return 2
 }
 
 func (c *gen) stateBlock() *Expr {
 	n := c.intn(1, 2, "nops")
 	e := &Expr{K: KState, ID: c.id()}
 	for i := 0; i < n; i++ {
-		op := rapid.SampledFrom([]string{"set", "incr", "incr", "del", "app", "app", "gincr"}).Draw(c.t, "op")
+		op := Pick(c.t, []string{"set", "incr", "incr", "del", "app", "app", "gincr"}, "op")
 		so := StateOp{Op: op, Val: c.intn(0, 9, "opval")}
 		switch op {
 		case "app":
@@ -352,7 +369,7 @@ func (c *gen) stateBlock() *Expr {
 		case "gincr":
 			so.Key = "g"
 		default:
-			so.Key = rapid.SampledFrom([]string{"k1", "k2"}).Draw(c.t, "opkey")
+			so.Key = Pick(c.t, []string{"k1", "k2"}, "opkey")
 		}
 		e.Ops = append(e.Ops, so)
 	}
@@ -360,11 +377,10 @@ func (c *gen) stateBlock() *Expr {
 }
 
 func (c *gen) recover(depth int, guarded bool) (*Expr, bool) {
-	e, en := c.expr(depth+1, guarded)
 	nl := c.intn(1, 2, "nflabels")
 	labels := []string{}
 	for i := 0; i < nl; i++ {
-		l := c.flabel()
+		l := Pick(c.t, []string{"F1", "F2", "F3"}, "hlabel")
 		dup := false
 		for _, x := range labels {
 			dup = dup || x == l
@@ -373,10 +389,20 @@ func (c *gen) recover(depth int, guarded bool) (*Expr, bool) {
 			labels = append(labels, l)
 		}
 	}
+	saveH := c.handled
+	c.handled = append(append([]string{}, saveH...), labels...)
+	var e *Expr
+	var en bool
+	if c.chance(60, "guardedseq") {
+		e, en = c.seq(depth+1, guarded)
+	} else {
+		e, en = c.expr(depth+1, guarded)
+	}
+	c.handled = saveH
 	var rec *Expr
 	rn := false
 	if len(c.recRules) > 0 && c.chance(50, "recrule") {
-		n := rapid.SampledFrom(c.recRules).Draw(c.t, "recname")
+		n := Pick(c.t, c.recRules, "recname")
 		rec = &Expr{K: KRef, Name: n}
 		rn = c.nullable[n]
 	} else {
@@ -479,7 +505,7 @@ func GrammarGen(cfg GenConfig) *rapid.Generator[*Grammar] {
 			}
 			r := &Rule{Name: c.names[i], Expr: e}
 			if cfg.Display && c.chance(40, "display") {
-				r.Display = rapid.SampledFrom([]string{"friendly", "a b", "x\"y", "é"}).Draw(t, "dname")
+				r.Display = Pick(t, []string{"friendly", "a b", "x\"y", "é"}, "dname")
 			}
 			rules[i] = r
 			c.nullable[c.names[i]] = n
